@@ -645,10 +645,11 @@ class AttackGraph():
                 f'with id:{node_id}:\n' \
                 + json.dumps(node.to_dict(), indent = 2))
 
-        if node.id in self._id_to_node:
+        new_node_id = node_id if node_id is not None else self.next_node_id
+        if new_node_id in self._id_to_node:
             raise ValueError(f'Node index {node_id} already in use.')
 
-        node.id = node_id if node_id is not None else self.next_node_id
+        node.id = new_node_id
         self.next_node_id = max(node.id + 1, self.next_node_id)
 
         self.nodes.append(node)
